@@ -343,7 +343,7 @@ fn c08_hist(input: &Input, obs: &mut Obs) -> Result<(), Fail> {
 
 fn c08_plan(tier: Tier) -> Vec<Job> {
     let q = tier == Tier::Quick;
-    vec![Job { sub: "hist", kind: JobKind::Pbt { cases: if q { 6_000 } else { 150_000 }, max_len: 700 }, smallbuf: false }]
+    vec![Job { sub: "hist", kind: JobKind::Pbt { cases: if q { 40_000 } else { 800_000 }, max_len: 700 }, smallbuf: false }]
 }
 
 pub fn c08() -> PropDef {
@@ -651,7 +651,7 @@ fn c09_hist(input: &Input, obs: &mut Obs) -> Result<(), Fail> {
 
 fn c09_plan(tier: Tier) -> Vec<Job> {
     let q = tier == Tier::Quick;
-    vec![Job { sub: "hist", kind: JobKind::Pbt { cases: if q { 8_000 } else { 200_000 }, max_len: 500 }, smallbuf: false }]
+    vec![Job { sub: "hist", kind: JobKind::Pbt { cases: if q { 40_000 } else { 800_000 }, max_len: 500 }, smallbuf: false }]
 }
 
 pub fn c09() -> PropDef {
@@ -926,7 +926,7 @@ fn c10_hist(input: &Input, obs: &mut Obs) -> Result<(), Fail> {
 
 fn c10_plan(tier: Tier) -> Vec<Job> {
     let q = tier == Tier::Quick;
-    vec![Job { sub: "hist", kind: JobKind::Pbt { cases: if q { 3_000 } else { 60_000 }, max_len: 600 }, smallbuf: false }]
+    vec![Job { sub: "hist", kind: JobKind::Pbt { cases: if q { 10_000 } else { 200_000 }, max_len: 600 }, smallbuf: false }]
 }
 
 pub fn c10() -> PropDef {
@@ -1415,7 +1415,7 @@ fn c07_plan(tier: Tier) -> Vec<Job> {
     let q = tier == Tier::Quick;
     vec![
         Job { sub: "macro", kind: JobKind::Enum { f: c07_macro_enum, bound: if q { "all applicable macro-operation sequences of depth 6 over {connect, send request, close, half-close} x 2 client roles and {respond oldest, respond newest}, each followed by a settle (sequences containing a request)" } else { "same, depth 7" } }, smallbuf: false },
-        Job { sub: "hist", kind: JobKind::Pbt { cases: if q { 8_000 } else { 200_000 }, max_len: 600 }, smallbuf: false },
+        Job { sub: "hist", kind: JobKind::Pbt { cases: if q { 40_000 } else { 800_000 }, max_len: 600 }, smallbuf: false },
     ]
 }
 
@@ -1671,7 +1671,7 @@ fn c18_kill(input: &Input, obs: &mut Obs) -> Result<(), Fail> {
 
 fn c18_plan(tier: Tier) -> Vec<Job> {
     let q = tier == Tier::Quick;
-    vec![Job { sub: "kill", kind: JobKind::Pbt { cases: if q { 700 } else { 20_000 }, max_len: 500 }, smallbuf: false }]
+    vec![Job { sub: "kill", kind: JobKind::Pbt { cases: if q { 2_500 } else { 50_000 }, max_len: 500 }, smallbuf: false }]
 }
 
 pub fn c18() -> PropDef {
